@@ -11,6 +11,7 @@ import (
 
 	"verif/checker/internal/flow"
 	"verif/checker/internal/load"
+	"verif/checker/internal/ref"
 )
 
 const jsMinVersion = load.Mod + "/js.(Minifier).minVersion"
@@ -212,8 +213,72 @@ func (gi *gateInfo) isGateOutcome(y *flow.Node, edition int64) bool {
 	if call == nil {
 		return false
 	}
-	k, ok := intConst(gi.info, call.Args[0])
-	return ok && k >= edition
+	if k, ok := intConst(gi.info, call.Args[0]); ok {
+		return k >= edition
+	}
+	// a level held in a local: every value the function assigns to it is a constant ≥ edition
+	id, ok := ast.Unparen(call.Args[0]).(*ast.Ident)
+	if !ok {
+		return false
+	}
+	obj := gi.info.Uses[id]
+	if v, isVar := obj.(*types.Var); !isVar || v.Parent() == nil || v.Parent() == v.Pkg().Scope() {
+		return false
+	}
+	_, encl := gi.c.funcOfPos(gi.pk, id.Pos())
+	if encl == nil {
+		return false
+	}
+	min, defs, allConst := int64(1<<62), 0, true
+	ast.Inspect(encl.Body, func(z ast.Node) bool {
+		switch e := z.(type) {
+		case *ast.AssignStmt:
+			for i, l := range e.Lhs {
+				lid, ok := l.(*ast.Ident)
+				if !ok || (gi.info.Uses[lid] != obj && gi.info.Defs[lid] != obj) {
+					continue
+				}
+				defs++
+				if len(e.Rhs) != len(e.Lhs) {
+					allConst = false
+					continue
+				}
+				if k, ok := intConst(gi.info, e.Rhs[i]); ok && e.Tok != token.ADD_ASSIGN && e.Tok != token.SUB_ASSIGN {
+					if k < min {
+						min = k
+					}
+				} else {
+					allConst = false
+				}
+			}
+		case *ast.ValueSpec:
+			for i, nm := range e.Names {
+				if gi.info.Defs[nm] != obj {
+					continue
+				}
+				defs++
+				if i < len(e.Values) {
+					if k, ok := intConst(gi.info, e.Values[i]); ok {
+						if k < min {
+							min = k
+						}
+						continue
+					}
+				}
+				allConst = false
+			}
+		case *ast.IncDecStmt:
+			if lid, ok := e.X.(*ast.Ident); ok && gi.info.Uses[lid] == obj {
+				allConst = false
+			}
+		case *ast.UnaryExpr:
+			if lid, ok := e.X.(*ast.Ident); ok && e.Op == token.AND && gi.info.Uses[lid] == obj {
+				allConst = false
+			}
+		}
+		return true
+	})
+	return defs > 0 && allConst && min >= edition
 }
 
 // gated reports whether node n of fd is reachable only through a version gate; depth-limited lifting to callers.
@@ -326,6 +391,33 @@ func (c *Ctx) r161() {
 			}) {
 				report(fd, n, "nullish coalescing ?? (new BinaryExpr)", 2020, a)
 			}
+			// D': a BinaryExpr built with another operator newer than ES5, named directly or taken from a table of the package
+			flow.Contains(a, func(x ast.Node) bool {
+				cl, ok := x.(*ast.CompositeLit)
+				if !ok || namedTypeName(info.TypeOf(cl)) != pjs+".BinaryExpr" || len(cl.Elts) == 0 {
+					return false
+				}
+				first := cl.Elts[0]
+				if kv, isKV := first.(*ast.KeyValueExpr); isKV {
+					if str(kv.Key) != "Op" {
+						for _, e := range cl.Elts {
+							if kv2, ok := e.(*ast.KeyValueExpr); ok && str(kv2.Key) == "Op" {
+								first = kv2.Value
+							}
+						}
+					} else {
+						first = kv.Value
+					}
+				}
+				if usesObj(info, first, pjs+".NullishToken") {
+					return false // D
+				}
+				edition, what := c.tokenEdition(pk, fd, first)
+				if edition > 0 {
+					report(fd, n, what+" (new BinaryExpr)", edition, a)
+				}
+				return false
+			})
 			// F: X.Binding = nil on a TryStmt
 			if rhs, ok := assignsTo(n, func(l ast.Expr) bool { return isField(info, l, pjs+".TryStmt", "Binding") }); ok && isNilExpr(rhs) {
 				report(fd, n, "optional catch binding", 2019, a)
@@ -949,4 +1041,115 @@ func (c *Ctx) r169() {
 	})
 	c.R.Check(good, rule, "js.replaceEscapes/\\u escape not decoded into a raw line or paragraph separator", c.pos(branch), "the branch tests the code point for 0x2028 and 0x2029",
 		"`\\u2028` and `\\u2029` are decoded like any other escape: `x=\"a\\u2028b\"` is printed with the raw separator inside the string literal, a syntax error for every target before ES2019")
+}
+
+// tokenEdition: the ECMAScript edition that an operator expression needs: a token constant of ref.JSTokenEdition, or a
+// local defined by a look-up in a package-level map whose values are such constants (the newest of them).
+func (c *Ctx) tokenEdition(pk *packages.Package, fd *ast.FuncDecl, e ast.Expr) (int64, string) {
+	info := pk.TypesInfo
+	best, what := int64(0), ""
+	scan := func(n ast.Node) {
+		ast.Inspect(n, func(z ast.Node) bool {
+			sel, ok := z.(*ast.SelectorExpr)
+			if !ok {
+				return true
+			}
+			if k, isConst := info.Uses[sel.Sel].(*types.Const); isConst && k.Pkg() != nil && k.Pkg().Path() == pjs {
+				if ed, ok := ref.JSTokenEdition[k.Name()]; ok && ed > best {
+					best, what = ed, "operator js."+k.Name()
+				}
+			}
+			return true
+		})
+	}
+	e = ast.Unparen(e)
+	if id, ok := e.(*ast.Ident); ok {
+		obj := info.Uses[id]
+		if v, isVar := obj.(*types.Var); isVar && v.Parent() != nil && v.Parent() != pk.Types.Scope() && fd.Body != nil {
+			// the definitions of the local
+			ast.Inspect(fd.Body, func(z ast.Node) bool {
+				var lhs []ast.Expr
+				var rhs []ast.Expr
+				switch s := z.(type) {
+				case *ast.AssignStmt:
+					lhs, rhs = s.Lhs, s.Rhs
+				default:
+					return true
+				}
+				for i, l := range lhs {
+					lid, ok := l.(*ast.Ident)
+					if !ok || (info.Uses[lid] != obj && info.Defs[lid] != obj) {
+						continue
+					}
+					r := rhs[0]
+					if len(rhs) == len(lhs) {
+						r = rhs[i]
+					}
+					if ie, ok := ast.Unparen(r).(*ast.IndexExpr); ok {
+						if mid, ok := ast.Unparen(ie.X).(*ast.Ident); ok {
+							if mv, isVar := info.Uses[mid].(*types.Var); isVar && mv.Parent() == pk.Types.Scope() {
+								if vs := c.varSpecValue(pk, mv); vs != nil {
+									if cl, ok := vs.(*ast.CompositeLit); ok {
+										for _, el := range cl.Elts {
+											if kv, ok := el.(*ast.KeyValueExpr); ok {
+												scan(kv.Value)
+											}
+										}
+										if best > 0 {
+											what += " (newest value of table " + mv.Name() + ")"
+										}
+										continue
+									}
+								}
+							}
+						}
+					}
+					scan(r)
+				}
+				return true
+			})
+			return best, what
+		}
+	}
+	scan(e)
+	return best, what
+}
+
+// varSpecValue: the initialiser of a package-level variable.
+func (c *Ctx) varSpecValue(pk *packages.Package, v *types.Var) ast.Expr {
+	for _, f := range pk.Syntax {
+		for _, d := range f.Decls {
+			gd, ok := d.(*ast.GenDecl)
+			if !ok {
+				continue
+			}
+			for _, sp := range gd.Specs {
+				vs, ok := sp.(*ast.ValueSpec)
+				if !ok {
+					continue
+				}
+				for i, nm := range vs.Names {
+					if pk.TypesInfo.Defs[nm] == v && i < len(vs.Values) {
+						return vs.Values[i]
+					}
+				}
+			}
+		}
+	}
+	return nil
+}
+
+// funcOfPos: the function declaration of the package that contains a position.
+func (c *Ctx) funcOfPos(pk *packages.Package, pos token.Pos) (*ast.File, *ast.FuncDecl) {
+	for _, f := range pk.Syntax {
+		if pos < f.Pos() || pos > f.End() {
+			continue
+		}
+		for _, d := range f.Decls {
+			if fd, ok := d.(*ast.FuncDecl); ok && fd.Pos() <= pos && pos <= fd.End() {
+				return f, fd
+			}
+		}
+	}
+	return nil, nil
 }
